@@ -159,7 +159,7 @@ class C13(core.Check):
                     if k >= 0:
                         doc = doc[:k] + ins + doc[k:]
                 yield dict(fam='e2e', doc=doc, ml=ml, lines=[gen_line(rnd, doc) for _ in range(rnd.randint(1, 3))],
-                           lang=rnd.choice(['en', 'en-GB', 'ru']))
+                           lang=rnd.choice(['en', 'en-GB', 'ru', None, 'de', '']))
                 continue
             t = gen_text(rnd)
             p = list(range(1000, 1000 + len(t)))
@@ -212,7 +212,7 @@ class C13(core.Check):
                     return dict(ok=False, nt=True, key='e2e:ml-parts', cnt=cnt, obs=None,
                                 detail=dict(got=got, base=base))
                 for bp, gp in zip(base[lg], got[lg]):
-                    if lg == lang:
+                    if lg == (lang or ''):
                         rt, rp, _ = ref_replace(bp[0], list(bp[1]), lines)
                         nt = nt or rt != bp[0]
                     else:
@@ -220,7 +220,7 @@ class C13(core.Check):
                         cnt['e2e_ml_foreign_part_unchanged'] = 1
                     if (gp[0], list(gp[1])) != (rt, rp):
                         return dict(ok=False, nt=True,
-                                    key='e2e:ml-main' if lg == lang else 'e2e:ml-foreign-part-changed',
+                                    key='e2e:ml-main' if lg == (lang or '') else 'e2e:ml-foreign-part-changed',
                                     cnt=cnt, obs=None, detail=dict(got=got, base=base, lang=lg))
         if nt:
             cnt['e2e_replaced'] = 1
